@@ -21,13 +21,13 @@ REPEATS = list(range(-2, 10)) + [15, 16, 17, 31, 32, 33, 64, 65]
 def describe(tier):
     q = tier == 'quick'
     return dict(
-        bounds=dict(classes=list(CLASSES), all_contents_up_to_bits=9 if q else 11,
+        bounds=dict(classes=list(CLASSES), all_contents_up_to_bits=9 if q else 15,
                     slice_triples='ALL a,b in {None} U [-L-2, L+2], c in {None,+-1,+-2,+-3,+-L,+-(L+1),0} on the index-plane '
                                   'contents (bit k of the position index, k=0..3, which identify every position for L<=16) '
-                                  'for L = 0..%d; reduced menu on all other contents' % (11 if q else 16),
+                                  'for L = 0..%d; reduced menu on all other contents' % (11 if q else 26),
                     edge_lengths=list(families.EDGE_Q if q else families.EDGE_T),
                     edge_menu='a,b in {None,0,+-1,+-7,+-8,+-9,+-63,+-64,+-65,+-(L-1),+-L,+-(L+1)} x c in {None,+-1,+-2,+-7,+-8,+-64}',
-                    concat='all ordered pairs of contents of length <= %d x 4 left classes x (4 classes + promotable forms); (short, EDGE) pairs both orders' % (5 if q else 6),
+                    concat='all ordered pairs of contents of length <= %d x 4 left classes x (4 classes + promotable forms); (short, EDGE) pairs both orders' % (5 if q else 8),
                     repeats=REPEATS, stream_pos='0, mid, L'),
         rule='each (state,event) of the product is executed once; non-trivial = the str model yields a value (not IndexError/ValueError) '
              'and the event is not len/bool of the same state',
@@ -48,18 +48,18 @@ def shards(tier, seed):
     q = tier == 'quick'
     out = []
     # (A) exhaustive slice triples on index-plane contents
-    for L in range(0, 12 if q else 17):
+    for L in range(0, 12 if q else 27):
         for cls in CLASSES:
             out.append(dict(kind='triples', L=L, cls=cls))
     # (B) all contents, reduced slice menu + basic events
-    conts = list(families.all_bits(9 if q else 11))
+    conts = list(families.all_bits(9 if q else 15))
     for i, part in enumerate(families.chunk(conts, 64)):
         out.append(dict(kind='basic', data=part, idx=i))
     # (C) edge lengths
     for L in (families.EDGE_Q if q else families.EDGE_T):
         out.append(dict(kind='edge', L=L, seed=seed))
     # (D) concatenation pairs
-    n = 5 if q else 6
+    n = 5 if q else 8
     small = list(families.all_bits(n))
     for i, part in enumerate(families.chunk(small, 32)):
         out.append(dict(kind='concat', left=part, n=n, idx=i))
